@@ -3,14 +3,45 @@ other property's runs through the 'viol closure' verdict, and here on a sample o
 import common as C
 import gen as G
 
-THEOREMS = ['validity_exact', 'valid_layouts_have_a_value', 'value_length_is_layout_length', 'closure_expand',
-            'closure_at_axis', 'closure_num', 'closure_localindex', 'closure_rpad_partial',
-            'closure_rpadclip_partial', 'closure_combinations_partial', 'closure_field_partial',
-            'closure_field_chars', 'closure_setfield', 'closure_fillna_partial', 'closure_flatten',
-            'closure_flatten_chars', 'closure_sort', 'closure_reduce_partial', 'closure_reduce_nomask',
-            'closure_getitem_partial', 'closure_fields', 'closure_of_validity_partial', 'expand_keeps_type',
-            'expand_keeps_value', 'result_type_at_axis', 'result_type_num', 'result_type_localindex',
-            'num_result_typed', 'localindex_result_typed']
+THEOREMS = ['validity_exact',
+            'valid_layouts_have_a_value',
+            'value_length_is_layout_length',
+            'closure_expand',
+            'closure_at_axis',
+            'closure_num',
+            'closure_localindex',
+            'closure_rpad_partial',
+            'closure_rpadclip_partial',
+            'closure_combinations_partial',
+            'closure_field_partial',
+            'closure_field_chars',
+            'closure_setfield',
+            'closure_fillna_partial',
+            'closure_flatten',
+            'closure_flatten_chars',
+            'closure_sort',
+            'closure_reduce_partial',
+            'closure_reduce_nomask',
+            'closure_getitem_partial',
+            'closure_fields',
+            'closure_of_validity_partial',
+            'expand_keeps_type',
+            'expand_keeps_value',
+            'result_type_at_axis',
+            'result_type_num',
+            'result_type_localindex',
+            'num_result_typed',
+            'localindex_result_typed',
+            'closure_carry',
+            'closure_crange',
+            'closure_carry_length_class',
+            'closure_field_novalue_partial',
+            'closure_field_nopt',
+            'closure_flatten_full',
+            'closure_sort_axes',
+            'closure_sort_all',
+            'closure_all_modelled_operations',
+            'closure_unconditional_operations']
 UNION_LAW = ('simplify', 'fillna', 'getitem', 'rpad')     # harness/unionlaw.py: the union row law for these operations (check.py runs it and merges the result)
 RULE = ('layouts: value-first random type/value/encoding (all node classes, widths, offset origins, option encodings, '
         'string parameters); invalid stream = one documented rule broken at one random node; closure stream = a third of '
